@@ -152,6 +152,35 @@ fn compile(usage: &str, shell: Shell) -> Value {
            "raw":rawv,"rawsubs":rsubs,"min":minv,"minsubs":msubs})
 }
 
+/// raw automaton + the events do_minimize reported while minimising it (top-level automaton only)
+fn mintrace(usage: &str, shell: Shell) -> Value {
+    let g = match Grammar::parse(usage) {
+        Ok(g) => g,
+        Err(_) => return json!({"verdict":"error"}),
+    };
+    let vg = match ValidGrammar::from_grammar(g, shell) {
+        Ok(v) => v,
+        Err(_) => return json!({"verdict":"error"}),
+    };
+    let mut pool = RegexInternPool::default();
+    let re = match Regex::from_valid_grammar(&vg, &mut pool) {
+        Ok(r) => r,
+        Err(_) => return json!({"verdict":"error"}),
+    };
+    let raw = match DFA::from_regex_raw(re, &pool) {
+        Ok(d) => d,
+        Err(_) => return json!({"verdict":"error"}),
+    };
+    let rawv = dump(&raw, &mut vec![], &mut vec![]);
+    complgen::verif::drain();
+    complgen::verif::enable(true);
+    let min = raw.minimize();
+    complgen::verif::enable(false);
+    let events: Vec<Value> = complgen::verif::drain().iter().filter_map(|e| serde_json::from_str(e).ok()).collect();
+    let minv = dump(&min, &mut vec![], &mut vec![]);
+    json!({"verdict":"ok","raw":rawv,"min":minv,"events":events})
+}
+
 fn tree(a: &[Expr], id: ExprId) -> Value {
     match &a[id] {
         Expr::Terminal {
@@ -497,6 +526,13 @@ fn main() {
                 }
             }
             "cli" => cli_case(&v, &tmpdir),
+            "mintrace" => {
+                let u = usage.clone();
+                match std::panic::catch_unwind(move || mintrace(&u, shell)) {
+                    Ok(o) => o,
+                    Err(_) => json!({"verdict":"panic"}),
+                }
+            }
             _ => json!({}),
         };
         v["obs"] = obs;
